@@ -41,6 +41,34 @@ class Arr0(Opaque):
         return self.val == other
 
 
+class SymNumber:
+    """an arbitrary Python/NumPy number: isinstance(_, Number) holds and `_ == c` is a symbolic condition, so any special-casing of a
+    particular value (1, 2, 0, ...) forks a path on which that value is the operand"""
+
+    def __init__(self):
+        import z3
+
+        self.val = z3.Real("other_number")
+
+    def __sym_isinstance__(self, interp, T):
+        name = getattr(T, "__name__", None) or getattr(T, "name", None) or str(T)
+        if isinstance(T, tuple):
+            return any(self.__sym_isinstance__(interp, t) for t in T)
+        return name in ("Number", "Real", "Integral", "int", "float") or T is numbers.Number
+
+    def __sym_eq__(self, interp, other):
+        import z3
+
+        if isinstance(other, (int, float)) and not isinstance(other, bool):
+            return self.val == other
+        if isinstance(other, bool):
+            return self.val == int(other)
+        return False
+
+    def __repr__(self):
+        return "<an arbitrary number>"
+
+
 def run_method(ctx, meth, other):
     cfg = Config()
     cfg.builtins = default_builtins()
@@ -94,12 +122,14 @@ def _check(ctx, tag, meta, me, other, rec, r, ret, opname, order, inplace):
         ctx.oblige(f"{tag}.inplace_target_is_self", a[0] is me, **meta)
 
 
-def binary_harness(meth):
+def binary_harness(meth, other_kind="opaque"):
     def h(ctx: Ctx):
-        other = Opaque("other")
+        other = {"opaque": lambda: Opaque("other"), "number": SymNumber, "one": lambda: 1, "one.0": lambda: 1.0, "two": lambda: 2, "zero": lambda: 0, "true": lambda: True,
+                 "half": lambda: 0.5, "minus-one": lambda: -1, "arr1": lambda: Arr0(1)}[other_kind]()
         opname, order, inplace = SPEC[meth]
         me, rec, r, ret = run_method(ctx, meth, _NONE if order == "s" else other)
-        _check(ctx, f"C11.dunder.{meth}", dict(function=f"{TB}:Tensor.{meth}"), me, other, rec, r, ret, opname, order, inplace)
+        tag = f"C11.dunder.{meth}" if other_kind == "opaque" else f"C11.dunder.{meth}[other={other_kind}]"
+        _check(ctx, tag, dict(function=f"{TB}:Tensor.{meth}", other=other_kind), me, other, rec, r, ret, opname, order, inplace)
 
     return h
 
@@ -151,6 +181,10 @@ def obligations(tier="quick"):
     hs = []
     for meth in SPEC:
         hs.append((meth, binary_harness(meth)))
+        if SPEC[meth][1] != "s":
+            # the operand's VALUE must not change which operation is recorded (only `**` has a documented value-dependent routing)
+            for ok_ in ("number", "one", "one.0", "two", "zero", "true", "half", "minus-one", "arr1"):
+                hs.append((f"{meth}[{ok_}]", binary_harness(meth, ok_)))
     for meth in ("__pow__", "__ipow__"):
         for ek in ("int1", "float1", "int2", "float2", "arr1", "arr2", "int3", "float", "arr3", "tensor", "array"):
             hs.append((f"{meth}[{ek}]", pow_harness(meth, ek)))
